@@ -1341,3 +1341,8 @@ mod tests {
         .is_none());
     }
 }
+
+// Verification hook (compiled only by `cargo kani`, which sets `--cfg kani`).
+#[cfg(kani)]
+#[path = "/verif/harness/mania_perf.rs"]
+pub(crate) mod verif_harness;
